@@ -115,9 +115,12 @@ func loadKnown() {
 		if err := json.Unmarshal(b, &f); err != nil {
 			panic(file + ": " + err.Error())
 		}
+		// a later file overrides an earlier one: an entry flipped to "fixed" by its author un-masks the key at once
 		for _, e := range f.Findings {
 			if e.Status == "known" {
 				knownSet[e.Key] = e
+			} else {
+				delete(knownSet, e.Key)
 			}
 		}
 	}
@@ -140,16 +143,16 @@ type failRec struct {
 }
 
 type propEv struct {
-	Requested     int                `json:"requested"`
-	Evaluations   int                `json:"evaluations"`
-	NonTrivial    []uint64           `json:"nontrivial_hashes"`
-	Classes       map[string]int     `json:"classes"`
-	Samples       []json.RawMessage  `json:"samples"`
-	ExcludedKnown map[string]int     `json:"excluded_known"`
-	KnownMsgs     map[string]string  `json:"known_msgs"`
-	Failures      []failRec          `json:"failures"`
-	WallS         float64            `json:"wall_s"`
-	Extra         map[string]any     `json:"extra,omitempty"`
+	Requested     int               `json:"requested"`
+	Evaluations   int               `json:"evaluations"`
+	NonTrivial    []uint64          `json:"nontrivial_hashes"`
+	Classes       map[string]int    `json:"classes"`
+	Samples       []json.RawMessage `json:"samples"`
+	ExcludedKnown map[string]int    `json:"excluded_known"`
+	KnownMsgs     map[string]string `json:"known_msgs"`
+	Failures      []failRec         `json:"failures"`
+	WallS         float64           `json:"wall_s"`
+	Extra         map[string]any    `json:"extra,omitempty"`
 	ntset         map[uint64]struct{}
 	sampleKeys    []uint64
 	failed        bool
